@@ -108,6 +108,20 @@ func breakLayout(r *Rng, l Layout) ([]rawArch, string) {
 		}
 		return as, "size-near-2^32"
 	case 13:
+		if r.Bool() {
+			// one archive whose own byte size passes 2^32 by a little (or by a few laps): twelve
+			// times the count, taken modulo 2^32, is small again
+			laps := int64(1 + r.Intn(3))
+			n := (laps<<32)/12 + 1 + int64(r.Intn(2000))
+			if n > 1<<32-1 {
+				n = 1<<32 - 1
+			}
+			st := int64(1 + r.Intn(5))
+			if st*n >= 1<<31 {
+				st = 1
+			}
+			return []rawArch{{st, n}}, "one-archive-size-wraps"
+		}
 		as[i].n = 1<<32 - 1
 		return as, "max-points"
 	}
